@@ -1,6 +1,7 @@
 package types
 
 import (
+	"bytes"
 	"encoding/binary"
 	"errors"
 	"fmt"
@@ -1823,6 +1824,7 @@ func (s *ServicesStatistics) Decode(d *Decoder) error {
 	// make the map
 	services := make(ServicesStatistics)
 
+	var prevID ServiceID
 	for i := uint64(0); i < length; i++ {
 		var serviceID ServiceID
 		if err = serviceID.Decode(d); err != nil {
@@ -1834,6 +1836,11 @@ func (s *ServicesStatistics) Decode(d *Decoder) error {
 			return err
 		}
 
+		// keys are strictly ascending in the encoding of a dictionary
+		if i > 0 && serviceID <= prevID {
+			return fmt.Errorf("ServicesStatistics: key %d out of order or repeated", serviceID)
+		}
+		prevID = serviceID
 		services[ServiceID(serviceID)] = serviceActivityRecord
 	}
 
@@ -2668,6 +2675,7 @@ func (a *AlwaysAccumulateMap) Decode(d *Decoder) error {
 	// make the map with length
 	*a = make(AlwaysAccumulateMap, length)
 
+	var prevKey ServiceID
 	for i := uint64(0); i < length; i++ {
 		var key ServiceID
 		if err = key.Decode(d); err != nil {
@@ -2679,6 +2687,11 @@ func (a *AlwaysAccumulateMap) Decode(d *Decoder) error {
 			return err
 		}
 
+		// keys are strictly ascending in the encoding of a dictionary
+		if i > 0 && key <= prevKey {
+			return fmt.Errorf("AlwaysAccumulateMap: key %d out of order or repeated", key)
+		}
+		prevKey = key
 		(*a)[key] = val
 	}
 
@@ -2772,11 +2785,19 @@ func (l *LookupMetaMapEntry) Decode(d *Decoder) error {
 
 	// Init the map
 	*l = make(LookupMetaMapEntry, length)
+	var prevKey LookupMetaMapkey
 	for i := uint64(0); i < length; i++ {
 		var key LookupMetaMapkey
 		if err = key.Decode(d); err != nil {
 			return err
 		}
+		// keys are strictly ascending (hash, then length) in the encoding of a dictionary
+		if i > 0 {
+			if c := bytes.Compare(key.Hash[:], prevKey.Hash[:]); c < 0 || (c == 0 && key.Length <= prevKey.Length) {
+				return fmt.Errorf("LookupMetaMapEntry: key out of order or repeated")
+			}
+		}
+		prevKey = key
 
 		timeSlotSetSize, err := d.DecodeLength()
 		if err != nil {
@@ -2818,11 +2839,17 @@ func (p *PreimagesMapEntry) Decode(d *Decoder) error {
 	// Init the map
 	*p = make(PreimagesMapEntry, length)
 
+	var prevKey OpaqueHash
 	for i := uint64(0); i < length; i++ {
 		var key OpaqueHash
 		if err = key.Decode(d); err != nil {
 			return err
 		}
+		// keys are strictly ascending in the encoding of a dictionary
+		if i > 0 && bytes.Compare(key[:], prevKey[:]) <= 0 {
+			return fmt.Errorf("PreimagesMapEntry: key out of order or repeated")
+		}
+		prevKey = key
 
 		var val ByteSequence
 		if err = val.Decode(d); err != nil {
@@ -2851,6 +2878,7 @@ func (s *Storage) Decode(d *Decoder) error {
 
 	// Init the map
 	*s = make(Storage, length)
+	var prevKey string
 	for i := uint64(0); i < length; i++ {
 		// Decode the of the key
 		// INFO: we want to read the vectors from jamtestnet, so we follow the same
@@ -2870,6 +2898,11 @@ func (s *Storage) Decode(d *Decoder) error {
 			return fmt.Errorf("storage key length %d does not match the key (%d octets)", keyLength, len(key))
 		}
 		str := string(key)
+		// keys are strictly ascending in the encoding of a dictionary
+		if i > 0 && str <= prevKey {
+			return fmt.Errorf("Storage: key out of order or repeated")
+		}
+		prevKey = str
 
 		var val ByteSequence
 		if err = val.Decode(d); err != nil {
@@ -2922,12 +2955,18 @@ func (a *ServiceAccountState) Decode(d *Decoder) error {
 	// Init the map
 	*a = make(ServiceAccountState, length)
 
+	var prevKey ServiceID
 	for i := uint64(0); i < length; i++ {
 		// Decode key (ServiceID)
 		var key ServiceID
 		if err = key.Decode(d); err != nil {
 			return err
 		}
+		// keys are strictly ascending in the encoding of a dictionary
+		if i > 0 && key <= prevKey {
+			return fmt.Errorf("ServiceAccountState: key %d out of order or repeated", key)
+		}
+		prevKey = key
 
 		// Decode value (ServiceAccount)
 		var value ServiceAccount
@@ -3389,11 +3428,19 @@ func (a *AccumulatedServiceOutput) Decode(d *Decoder) error {
 
 	// Initialize the map with the given length
 	*a = make(AccumulatedServiceOutput, length)
+	var prevKey AccumulatedServiceHash
 	for i := uint64(0); i < length; i++ {
 		var key AccumulatedServiceHash
 		if err = key.Decode(d); err != nil {
 			return err
 		}
+		// elements are strictly ascending (service id, then hash) in the encoding of a set
+		if i > 0 {
+			if key.ServiceID < prevKey.ServiceID || (key.ServiceID == prevKey.ServiceID && bytes.Compare(key.Hash[:], prevKey.Hash[:]) <= 0) {
+				return fmt.Errorf("AccumulatedServiceOutput: element out of order or repeated")
+			}
+		}
+		prevKey = key
 
 		// Put the key in the map
 		(*a)[key] = true // The value is always true in this context
